@@ -89,7 +89,7 @@ CLAIMED = {
  'C13': {
   'text': 'Per-step facts decided by the solver: nothing is transmitted on negative credit and every transmitted byte is debited (ack and sync emitters, all credit values); no frame exceeds 1472 bytes; '
           'X <= ceiling after every rate update (feedback on an RTT grid, no-feedback expiry fully symbolic); the ceiling handed to the connection is min(local max_send_rate, peer max_receive_rate) on both endpoints (thorough).',
-  'note': COMMON_NOTE + 'The interval inequality (telescoping over steps) and fill_flush_alloc\'s float arithmetic are NOT decided by the solver. Data emitter path (thorough): every byte of every data frame is debited, nothing leaves on negative credit, one flush overdraws the credit by less than one frame.',
+  'note': COMMON_NOTE + 'The interval inequality itself (telescoping over steps) is NOT decided by the solver, its per-step ingredients are: the credit refill of step() adds at most rate x elapsed time and never lets the credit exceed rate x RTT (fill_flush_alloc with rate and RTT on a concrete grid, elapsed time and previous credit symbolic, floats bit-precise); every emitter debits every byte and starts nothing on negative credit; X <= ceiling. Data emitter path (thorough): one flush overdraws the credit by less than one frame.',
  },
  'C14': {
   'text': 'One call of SendRateComp::step from any state with MIN <= X <= ceiling: no-feedback expiry fully symbolic (keeps or halves, never below s/64, never above the ceiling, never increases; slow start and equation phase), '
